@@ -286,8 +286,8 @@ func drawBigHashFile(t *rapid.T) *bigHash {
 	}
 	bh.pairBytes = b
 	// surrounding small keys
-	pre := gen.DrawFile(t, gen.FileOpts{MaxDBs: 1, MaxKeys: 3, MaxElems: 5, NoMeta: true, NoLua: true, SmallDBs: true})
-	post := gen.DrawFile(t, gen.FileOpts{MaxDBs: 1, MaxKeys: 3, MaxElems: 5, NoMeta: true, NoLua: true, SmallDBs: true})
+	pre := gen.DrawFile(t, gen.FileOpts{MaxDBs: 1, MaxKeys: 3, MaxElems: 5, NoMeta: true, NoLua: true, SmallDBs: true, SingleHint: true, NoEmpty: true, ClassicOnly: true})
+	post := gen.DrawFile(t, gen.FileOpts{MaxDBs: 1, MaxKeys: 3, MaxElems: 5, NoMeta: true, NoLua: true, SmallDBs: true, SingleHint: true, NoEmpty: true, ClassicOnly: true})
 	strip := func(f *gen.File) []byte { return f.Bytes[9 : len(f.Bytes)-9] }
 	var body []byte
 	body = append(body, strip(pre)...)
